@@ -253,13 +253,24 @@ func keyOf(k Kid, fe, mode string) string {
 	return k.Key
 }
 
+var blankForms = []string{" \t ", "\u00a0", " \u3000\n", "\u2003\u0085"}
+
 // concrete Go value handed to Parse for an abstract input (maps are map[string]any, lists []any)
 func concInput(in *Input, n *Node, fe string) any {
 	switch in.T {
 	case "missing", "nil":
 		return nil
 	case "blank":
-		return " \t "
+		// "empty after trimming whitespace" is strings.TrimSpace: Unicode blanks count, not only the six ASCII ones.
+		// The form is a function of the node, so a case always carries the same string.
+		i := 0
+		if n != nil {
+			i = len(n.Tests) + n.Def + n.Catch
+			if n.Req {
+				i++
+			}
+		}
+		return blankForms[((i%len(blankForms))+len(blankForms))%len(blankForms)]
 	case "empty":
 		return ""
 	case "bad":
